@@ -198,13 +198,36 @@ def itoa (n : Int) : Bytes := if n < 0 then 45 :: digitsOf n.natAbs else digitsO
 def maxInt64 : Int := 9223372036854775807
 def minInt64 : Int := -9223372036854775808
 
+def maxUint64 : Nat := 18446744073709551615
+/-- `maxUint64/10 + 1`: the smallest `n` with `n*10 > maxUint64` -/
+def cutoff10 : Nat := 1844674407370955162
+
+/-- outcome of `strconv.ParseUint(s, 10, 64)`'s left-to-right scan: Go reports the *first* problem it meets, so a
+non-digit after the point where the number already overflowed 64 bits is a range error, not a syntax error -/
+inductive Scan where
+  | ok (n : Nat)
+  | syntax
+  | range
+  deriving DecidableEq, Repr
+
+def scanU : Nat → Bytes → Scan
+  | n, [] => .ok n
+  | n, c :: cs =>
+    if !isDigit c then .syntax
+    else if n ≥ cutoff10 then .range
+    else if n * 10 + (c.toNat - 48) > maxUint64 then .range
+    else scanU (n * 10 + (c.toNat - 48)) cs
+
 /-- the value `v, _ := strconv.Atoi(s)` leaves in `v`: 0 on a syntax error, clamped on a range error -/
 def atoiV (s : Bytes) : Int :=
   let body (ds : Bytes) (neg : Bool) : Int :=
-    if ds = [] ∨ ¬ ds.all isDigit then 0
-    else
-      let n : Int := natOfDigits ds
-      if neg then (if -n < minInt64 then minInt64 else -n) else (if n > maxInt64 then maxInt64 else n)
+    if ds = [] then 0
+    else match scanU 0 ds with
+      | .syntax => 0
+      | .range => if neg then minInt64 else maxInt64
+      | .ok n =>
+        if neg then (if -(n : Int) < minInt64 then minInt64 else -(n : Int))
+        else (if (n : Int) > maxInt64 then maxInt64 else (n : Int))
   match s with
   | 45 :: ds => body ds true
   | 43 :: ds => body ds false
@@ -269,15 +292,49 @@ theorem digitsOf_head_digit (n : Nat) : ∀ b ∈ digitsOf n, b ≠ 45 ∧ b ≠
   obtain ⟨h1, h2⟩ := h
   constructor <;> (intro e; subst e; simp at h1)
 
+private theorem foldl_dec_ge (ds : Bytes) (a : Nat) :
+    a ≤ ds.foldl (fun acc b => 10 * acc + (b.toNat - 48)) a := by
+  induction ds generalizing a with
+  | nil => simp
+  | cons c cs ih =>
+    simp only [List.foldl_cons]
+    exact Nat.le_trans (by omega) (ih _)
+
+/-- on an all-digit string whose value fits 64 bits the scan returns the value -/
+theorem scanU_ok (ds : Bytes) (a : Nat) (hd : ds.all isDigit = true)
+    (hm : ds.foldl (fun acc b => 10 * acc + (b.toNat - 48)) a ≤ maxUint64) :
+    scanU a ds = .ok (ds.foldl (fun acc b => 10 * acc + (b.toNat - 48)) a) := by
+  induction ds generalizing a with
+  | nil => rfl
+  | cons c cs ih =>
+    simp only [List.all_cons, Bool.and_eq_true] at hd
+    simp only [List.foldl_cons] at hm ⊢
+    have hge := foldl_dec_ge cs (10 * a + (c.toNat - 48))
+    unfold scanU
+    have h1 : ¬ a ≥ cutoff10 := by unfold cutoff10; unfold maxUint64 at hm; omega
+    have h2 : ¬ a * 10 + (c.toNat - 48) > maxUint64 := by omega
+    simp only [hd.1, Bool.not_true, Bool.false_eq_true, if_false, h1, h2]
+    rw [show a * 10 + (c.toNat - 48) = 10 * a + (c.toNat - 48) by omega]
+    exact ih _ hd.2 hm
+
+theorem scanU_digitsOf (n : Nat) (h : n ≤ maxUint64) : scanU 0 (digitsOf n) = .ok n := by
+  have := scanU_ok (digitsOf n) 0 (digitsOf_all_digit n) (by
+    have e := natOfDigits_digitsOf n; unfold natOfDigits at e; rw [e]; exact h)
+  have e := natOfDigits_digitsOf n
+  unfold natOfDigits at e
+  rw [e] at this
+  exact this
+
 /-- `Atoi(Itoa(n)) = n` on the 64-bit range -/
 theorem atoiV_itoa (n : Int) (h1 : minInt64 ≤ n) (h2 : n ≤ maxInt64) : atoiV (itoa n) = n := by
+  have hs : scanU 0 (digitsOf n.natAbs) = .ok n.natAbs :=
+    scanU_digitsOf _ (by unfold maxUint64; unfold minInt64 at h1; unfold maxInt64 at h2; omega)
   unfold itoa
   by_cases hn : n < 0
   · rw [if_pos hn]
     unfold atoiV
     simp only []
-    rw [if_neg (by simp [digitsOf_ne_nil, digitsOf_all_digit])]
-    rw [natOfDigits_digitsOf]
+    rw [if_neg (digitsOf_ne_nil _), hs]
     simp only [if_true]
     unfold minInt64 at *
     split <;> omega
@@ -292,9 +349,7 @@ theorem atoiV_itoa (n : Int) (h1 : minInt64 ≤ n) (h2 : n ≤ maxInt64) : atoiV
       · rename_i ds heq; injection heq with e1 e2; exact absurd e1 hb.1
       · rename_i ds heq; injection heq with e1 e2; exact absurd e1 hb.2
       · simp only []
-        rw [← hd]
-        rw [if_neg (by simp [digitsOf_ne_nil, digitsOf_all_digit])]
-        rw [natOfDigits_digitsOf]
+        rw [← hd, if_neg hne, hs]
         unfold maxInt64 at *
         simp only [Bool.false_eq_true, if_false]
         split <;> omega
